@@ -243,6 +243,10 @@ def candidates(seed, around=None):
         fs = [f for f in FUNCS if usable(cont, f)]
         yield {"kind": "block", "container": cont, "funcs": fs[:3], "partition": [[2, 1]]}
         yield {"kind": "block", "container": cont, "funcs": fs[:4], "partition": [[1, 0], [2, 2]]}
+    # constructors and destructors inside a block of their class
+    yield {"kind": "block", "container": "class", "funcs": ["Box()", "~Box()", "int push(const char *s)"], "partition": [[2, 1]]}
+    yield {"kind": "block", "container": "class", "funcs": ["Box(int n)", "void pop(int n)", "~Box()"], "partition": [[1, 2], [2, 1]]}
+    yield {"kind": "block", "container": "template", "funcs": ["vec()", "~vec()", "void pop(int n)"], "partition": [[2, 1]]}
     for cont in CONTAINERS:
         fs = [f for f in FUNCS if usable(cont, f)]
         for cu in CUSTOM:
